@@ -394,6 +394,11 @@ func (w *walReader) ReadBytes() ([]byte, error) {
 	payload := make([]byte, payloadLen)
 	_, err = io.ReadAtLeast(w.reader, payload, int(payloadLen))
 	if err != nil {
+		if err == io.EOF {
+			// the header was read, so a missing payload is a torn record,
+			// not a clean end of the log
+			err = io.ErrUnexpectedEOF
+		}
 		return nil, errors.WithStack(err)
 	}
 
